@@ -1,4 +1,4 @@
 From Coq Require Import Extraction ExtrOcamlBasic.
 From TatsuV Require Import Base.PyStr Lib.ObjModel.
 Extraction "objmodel.ml" nums_witness basekeys wfb pub children links parent_of walk_dfs walk_post walk_bfs
-  allin spec_attrs vid vcls plain build plainc erase declare_all setord_id.
+  allin spec_attrs vid vcls plain build plainc erase declare_all setord_id run_walkers resolve nearest.
